@@ -28,7 +28,10 @@ def token_matches(tok, actual, extra_abs=0.0):
     v, p, b, _ = tok
     unit = p + b
     prec = R.cfg().precision(unit)
-    tol = (0.5 * 10.0 ** (-prec) + 1e-9 * abs(v)) * R.PREFIX[p] + extra_abs + 1e-12 * abs(actual.get(b, 0.0))
+    # half a unit of the displayed precision, plus the intermediate rounding to q in *base* units that the
+    # library applies before rescaling (double rounding can exceed the half unit by that much)
+    tol = (0.5 * 10.0 ** (-prec) + 1e-9 * abs(v)) * R.PREFIX[p] + extra_abs + 1e-12 * abs(actual.get(b, 0.0)) \
+        + R.K * R.cfg().q
     return abs(v * R.PREFIX[p] - actual.get(b, 0.0)) <= tol
 
 
